@@ -63,6 +63,11 @@ fn canon(v: &Cbor) -> Cbor {
 }
 
 fn gen_bytes(rng: &mut Rng, max: usize) -> Bytes {
+    // now and then a byte string longer than a CBOR reader's scratch buffer (4 KiB in ciborium)
+    if rng.chance(1, 40) {
+        let l = *rng.pick(&[4096usize, 4097, 5000, 70_000]);
+        return rng.bytes(l).into();
+    }
     let l = *rng.pick(&[0usize, 1, 16, 32, 64, 100]);
     rng.bytes(l.min(max)).into()
 }
@@ -646,6 +651,58 @@ fn check_info_option_defaults(rep: &mut Report, rng: &mut Rng, index: u64) {
     }
 }
 
+/// (e') the hmac-secret input nested in a getAssertion request: a missing or repeated member of the
+/// nested map is an error there as it is for the input on its own
+fn check_nested_hmac_input(rep: &mut Report, rng: &mut Rng, index: u64) {
+    let (mut ga, _) = gen_ga_req(rng);
+    let (h, _) = gen_hmac_input(rng);
+    ga.extensions = Some(get_assertion::ExtensionInputs { hmac_secret: Some(h), prf: None });
+    let bytes = ser(&ga).unwrap();
+    let val = oracle::cbor_parse(&bytes).unwrap();
+    let top = val.as_map().unwrap().clone();
+    let Some(ext_pos) = top.iter().position(|(k, _)| oracle::cbor_int(k) == Some(4)) else { return };
+    let Some(ext) = top[ext_pos].1.as_map().cloned() else { return };
+    let Some(h_pos) = ext.iter().position(|(k, _)| k.as_text() == Some("hmac-secret")) else { return };
+    let Some(inner) = ext[h_pos].1.as_map().cloned() else { return };
+    let rebuild = |inner2: Vec<(Cbor, Cbor)>| {
+        let mut ext2 = ext.clone();
+        ext2[h_pos].1 = Cbor::Map(inner2);
+        let mut top2 = top.clone();
+        top2[ext_pos].1 = Cbor::Map(ext2);
+        oracle::cbor_ser(&Cbor::Map(top2))
+    };
+    // the well-formed nesting decodes
+    rep.eval();
+    if !matches!(catch(|| de::<get_assertion::Request>(&bytes).is_ok()), Ok(true)) {
+        rep.violate("getAssertion request: a request carrying a well-formed hmac-secret input does not decode", String::new(), json!({"index": index}));
+        return;
+    }
+    for i in 0..inner.len() {
+        let key = oracle::cbor_int(&inner[i].0);
+        // members 1, 2, 3 (keyAgreement, saltEnc, saltAuth) are required, 4 is optional
+        if matches!(key, Some(1..=3)) {
+            rep.eval();
+            let mut m = inner.clone();
+            m.remove(i);
+            let case = json!({"index": index, "type": "getAssertion request", "nested": "extensions/hmac-secret", "removed_key": key});
+            match catch(|| de::<get_assertion::Request>(&rebuild(m)).is_ok()) {
+                Ok(true) => rep.violate("getAssertion request: nested hmac-secret input with a missing required member accepted", format!("key {key:?}"), case),
+                Ok(false) => rep.count("nested_missing_required_rejected"),
+                Err((sig, d)) => rep.violate(&format!("getAssertion request: nested input {sig}"), d, case),
+            }
+        }
+        rep.eval();
+        let mut m = inner.clone();
+        m.insert(rng.below(inner.len() + 1), inner[i].clone());
+        let case = json!({"index": index, "type": "getAssertion request", "nested": "extensions/hmac-secret", "duplicated_key": key});
+        match catch(|| de::<get_assertion::Request>(&rebuild(m)).is_ok()) {
+            Ok(true) => rep.violate("getAssertion request: nested hmac-secret input with a duplicated member accepted", format!("key {key:?}"), case),
+            Ok(false) => rep.count("nested_duplicates_rejected"),
+            Err((sig, d)) => rep.violate(&format!("getAssertion request: nested input {sig}"), d, case),
+        }
+    }
+}
+
 fn status_bytes(rep: &mut Report, only: Option<u64>) {
     // (f) u8 -> StatusCode -> u8 is the identity and injective
     let all: Vec<StatusCode> = (0..=255u8).map(StatusCode::from).collect();
@@ -755,6 +812,7 @@ pub fn run(args: &Args) -> Report {
             let mut rng = Rng::derive(args.seed, "c13d", i);
             check_defaults(cx.rep, &mut rng, i * 10 + 9);
             check_info_option_defaults(cx.rep, &mut rng, i * 10 + 9);
+            check_nested_hmac_input(cx.rep, &mut rng, i * 10 + 9);
         }
     }
     status_bytes(&mut rep, only);
